@@ -70,7 +70,7 @@ pub fn tree_s(roots: usize, with_ignore: bool) -> BoxedStrategy<TreeSpec> {
         10 => (0u32..3, prop_oneof![Just(0u64), Just(1), Just(5), Just(100), Just(5000)]).prop_map(|(class, size)| Kind::File(Content { class, size, flip: None })),
         2 => Just(Kind::Dir),
         1 => (0u16..u16::MAX).prop_map(Kind::Hardlink),
-        3 => ((0u16..u16::MAX), prop_oneof![4 => Just(LinkStyle::Relative), 3 => Just(LinkStyle::Absolute), 1 => Just(LinkStyle::Dangling), 1 => Just(LinkStyle::SelfCycle)]).prop_map(|(s, st)| Kind::Symlink(s, st)),
+        3 => ((0u16..u16::MAX), prop_oneof![4 => Just(LinkStyle::Relative), 3 => Just(LinkStyle::Absolute), 2 => Just(LinkStyle::AbsoluteDotDot), 1 => Just(LinkStyle::Dangling), 1 => Just(LinkStyle::SelfCycle)]).prop_map(|(s, st)| Kind::Symlink(s, st)),
     ];
     let entry = (path.clone(), kind, 0u32..100).prop_map(|(path, kind, mtime)| Entry { path, kind, mtime });
     let ignore = (0..roots, proptest::collection::vec(name_s(), 0..2), any::<bool>(), proptest::collection::vec((0u16..u16::MAX).prop_map(|i| IGNORE_PATTERNS[pick(i, IGNORE_PATTERNS.len())]), 1..4)).prop_map(
@@ -565,7 +565,7 @@ pub fn check(tier: Tier) -> i32 {
     cleanup_process_scratch();
     ctx.finish(
         "exploration",
-        "proptest-generated trees (nesting 0-4, names with regex metacharacters, blanks, brackets, non-ASCII and leading dots, .gitignore/.fdignore files from a restricted grammar {name, *.ext, /anchored, dir/, !negation within one file}, hard links, relative/absolute/dangling/cyclic symlinks, a sub-tree on the other device reached through a symlink) x --depth 0-5, --hidden, --no-ignore, -L, -S, --min/--max, --name/--path/--exclude as globs or (small grammar) regexes, absolute or relative to a working directory inside the tree, -i with case-flipped patterns, --one-fs, overlapping and repeated roots given as arguments or through --stdin; with --no-ignore, half of the cases also have a user-level ignore file ($XDG_CONFIG_HOME/git/ignore) that must then have no effect. Observation: `group --rf-over 0 -f json` lists every selected file. Oracle: reference walk written from README/--help (pruning does not exist in it): exact set equality, no path twice. Non-trivial = the expected set is non-empty, differs from 'all files' and contains a file deeper than level 2 or below a directory with a metacharacter / non-ASCII name.",
+        "proptest-generated trees (nesting 0-4, names with regex metacharacters, blanks, brackets, non-ASCII and leading dots, .gitignore/.fdignore files from a restricted grammar {name, *.ext, /anchored, dir/, !negation within one file}, hard links, relative/absolute (canonical or through `..`)/dangling/cyclic symlinks, a sub-tree on the other device reached through a symlink) x --depth 0-5, --hidden, --no-ignore, -L, -S, --min/--max, --name/--path/--exclude as globs or (small grammar) regexes, absolute or relative to a working directory inside the tree, -i with case-flipped patterns, --one-fs, overlapping and repeated roots given as arguments or through --stdin; with --no-ignore, half of the cases also have a user-level ignore file ($XDG_CONFIG_HOME/git/ignore) that must then have no effect. Observation: `group --rf-over 0 -f json` lists every selected file. Oracle: reference walk written from README/--help (pruning does not exist in it): exact set equality, no path twice. Non-trivial = the expected set is non-empty, differs from 'all files' and contains a file deeper than level 2 or below a directory with a metacharacter / non-ASCII name.",
         &["outside the generated domain (documentation does not settle them): hidden root names, .gitignore and .fdignore in one directory, negation in a deeper ignore file overriding a parent's rule, ignore files together with -L", "regex mode uses three pattern shapes with a reference predicate each"],
     )
 }
